@@ -282,7 +282,7 @@ PLANS["C16"] = {
         "quick": [leg("dbg", 16, "sparse_exh", of=64), leg("rel", 16, weight=3), leg("dbg", 16, "sparse_rand"), leg("dbg", 16, "rl_rand"), leg("dbg", 16, "rl_exh"), leg("miri", 6, "rl_exh", of=4000, budget=2500), leg("miri", 6, "sparse_exh", of=40000, budget=2500),
                    leg("fuzz", 3, "sparse_rand", runs=3000), leg("fuzz", 3, "rl_rand", runs=1500)],
         "thorough": [leg("dbg", 16, "sparse_exh", of=16), leg("rel", 16, weight=3), leg("dbg", 16, "sparse_rand"), leg("dbg", 16, "rl_rand"), leg("dbg", 16, "rl_exh"), leg("miri", 12, "rl_exh", of=40000, budget=15000), leg("miri", 12, "sparse_exh", of=400000, budget=15000),
-                      leg("fuzz", 8, "sparse_rand", runs=15000), leg("fuzz", 8, "rl_rand", runs=8000), leg("fuzz-dbg", 4, "sparse_rand", runs=15000), leg("fuzz-dbg", 4, "rl_rand", runs=8000)],
+                      leg("fuzz", 8, "sparse_rand", runs=15000), leg("fuzz", 8, "rl_rand", runs=2000), leg("fuzz-dbg", 4, "sparse_rand", runs=15000), leg("fuzz-dbg", 4, "rl_rand", runs=2000)],
     },
     "require": {"quick": [], "thorough": []},
     "exhaustive": True,
